@@ -229,7 +229,8 @@ ASSUMPTIONS["C08"] = ["deductive part: the modal-parameter stage only (ssi.ac2mp
 
 NOT_DECIDED = {
     "C08": ["covariance under gain and channel permutation / orthogonal mixing for every algorithm class: bounded stand-in only (one random orthogonal mixing per data set; the multi-setup variants are exercised for gain and time unit only)",
-            "unit normalisation of FDD / EFDD shapes is proved under C06 (FDD_mpe's contract), not repeated here"],
+            "unit normalisation of FDD / EFDD / FSDD shapes: FDD_mpe's result clauses and its pivot lemma are discharged under C08 as well (same contract as C06); EFDD_mpe's final "
+            "normalisation of the fitted shape (fdd.py, phi_FDD / phi_FDD[argmax|phi_FDD|]) is covered by the bounded stand-in only"],
     "C17": ["variance = squared directional derivative / sum of squares over several columns, at every model order: bounded stand-in only (finite differences; holds since /repo 9cb106e)",
             "the last data block is one sample short when nb divides N (the block slice is clamped to the N-1 available columns) but is still divided by Nb: a small bias the "
             "property does not speak about; the contract models it exactly"],
